@@ -300,6 +300,16 @@ Theorem GenTie_div_nxm_normalized : forall numerator divisor,
 Proof. exact g_div_nxm_normalized_eq. Qed.
 Print Assumptions GenTie_div_nxm_normalized.
 
+(* Knuth division, general variant (div_nxm): on-the-fly normalisation by `shift`, value blocks and
+   value-`if`s whose branches update the numerator (the updated slice leaves the branch together with
+   the value), `get(i).copied().unwrap_or_default()`, the epilogue `copy_from_slice` / `copy_within` /
+   `fill`.  Result: (numerator after the call, divisor after the call) = (quotient, remainder). *)
+Theorem GenTie_div_nxm : forall numerator divisor,
+  Forall inW numerator -> Forall inW divisor -> lenZ numerator + 1 < B ->
+  g_div_nxm numerator divisor = DivKnuth.div_nxm numerator divisor.
+Proof. exact g_div_nxm_eq. Qed.
+Print Assumptions GenTie_div_nxm.
+
 (* the premises are satisfiable and the generated code computes: reciprocal(2^63) = 2^64 - 1 *)
 Example GenTie_nonvacuous :
   g_reciprocal_mg10 (2 ^ 63) = Val (2 ^ 64 - 1) /\ g_mask 65 = Val 1 /\ g_nlimbs 65 = Val 2 /\
@@ -318,6 +328,9 @@ Example GenTie_nonvacuous :
                        [0x1415dfe9e8161414; 0x1656161616161682; 0x9600001682001616]
   = DivKnuth.div_nxm_normalized [0x1656178c14142000; 0x821415dfe9e81612; 0x1616561616161616; 0x96000016820016]
                        [0x1415dfe9e8161414; 0x1656161616161682; 0x9600001682001616] /\
+  g_div_nxm [0x1656178c14142000; 0x821415dfe9e81612; 0x1616561616161616; 0x96000016820016]
+            [0x1415dfe9e8161414; 0x1656161616161682; 0x9600001682001616]
+  = Val ([0xffffffffffffff; 0; 0; 0], [0x166bf775fc2a3414; 0x1656161616161680; 0x9600001682001616]) /\
   (exists r, g_div_nxm_normalized [0x1656178c14142000; 0x821415dfe9e81612; 0x1616561616161616; 0x96000016820016]
                        [0x1415dfe9e8161414; 0x1656161616161682; 0x9600001682001616] = Val r).
 Proof. vm_compute. repeat split. eexists. reflexivity. Qed.
